@@ -76,7 +76,7 @@ for m in spec:
         ast.fix_missing_locations(src_fn)
         text = ast.unparse(src_fn) + "\n"
         params = _codec.decode_params() if m.get("data_is_bytes") else None
-        sig_model = _codec.signature(_codec.reference_paths(text, params))
+        sig_model = _codec.signature(_codec.reference_paths(text, params, like=f, repo=repo))
         sig_impl = _codec.signature(_codec.paths_of(Ctx(repo), f, params, keep))
         lost = [t for c in m["components"] for t in sig_impl[c] if any(x in t for x in _codec.LOST)]
         if lost:
